@@ -68,6 +68,7 @@ type Contract struct {
 	Flags    map[string]bool
 	Refines  []string
 	Includes []string
+	Except   map[string]map[string]bool // include X except labels
 	GEntry   []*Clause // ghost updates at entry: Label = ghost variable expression text
 	GReturn  []*Clause // ghost updates at return (Cond optional)
 	Parent   *Contract // callee contracts: the contract of the enclosing function
@@ -367,7 +368,20 @@ func parseContractFile(path, pkgPath string) (*PkgContracts, error) {
 		case "refines":
 			cur.Refines = append(cur.Refines, splitList(rest)...)
 		case "include":
-			cur.Includes = append(cur.Includes, splitList(rest)...)
+			// include X [except label, label]
+			parts := strings.SplitN(rest, " except ", 2)
+			for _, inc := range splitList(parts[0]) {
+				cur.Includes = append(cur.Includes, inc)
+				if len(parts) == 2 {
+					if cur.Except == nil {
+						cur.Except = map[string]map[string]bool{}
+					}
+					cur.Except[inc] = map[string]bool{}
+					for _, lb := range splitList(parts[1]) {
+						cur.Except[inc][lb] = true
+					}
+				}
+			}
 		case "kindprops":
 			if pc.KindProps == nil {
 				pc.KindProps = map[string][]string{}
@@ -851,6 +865,20 @@ func (pc *PkgContracts) emitClause(c *Contract, cl *Clause, extra []Binder) {
 	cl.FnName = fmt.Sprintf("zzc_%d", pc.clauseSeq)
 	cl.Owner = c
 	bs := append(c.allBinders(), extra...)
+	if cl.Kind == "invariant" || (cl.Kind == "decreases" && extra != nil) {
+		// results do not exist at a loop head; loop binders may reuse their names
+		var nb []Binder
+		isRes := map[string]bool{}
+		for _, r := range c.Results {
+			isRes[r.Name] = true
+		}
+		for _, b := range c.allBinders() {
+			if !isRes[b.Name] {
+				nb = append(nb, b)
+			}
+		}
+		bs = append(nb, extra...)
+	}
 	// lets become additional binders whose type is inferred: emit them as
 	// local variable declarations inside the function body.
 	var lets strings.Builder
